@@ -13,6 +13,8 @@ from . import tacdlib as T
 
 LEVEL = 'fault_enumeration'
 CATALOGUE = ['connect_close', 'garbage', 'http', 'tls_no_alpn', 'tls_foreign_alpn', 'hello_abandon', 'stall']
+# behaviours added after the seeded changes of round 2: abortive close (RST) and handshakes asking for odd server names
+EXTRA = ['rst_close', 'tls_odd_sni']
 # plus 'slow<seconds>': connections kept open and silent for that long (added to a few histories, see gen_histories)
 
 
@@ -82,6 +84,10 @@ def gen_histories(tier):
     if tier != 'quick':
         slow += [('slow12',), ('tls_foreign_alpn', 'slow12'), ('slow35',), ('slow35', 'connect_close')]
     seqs += slow
+    # the extra behaviours alone, twice, and combined with every catalogue entry in both orders
+    for e in EXTRA:
+        seqs += [(e,), (e, e)] + [(e, c) for c in CATALOGUE] + [(c, e) for c in CATALOGUE]
+    seqs += [('rst_close', 'tls_odd_sni'), ('tls_odd_sni', 'rst_close', 'stall')]
     proofs = T.daemon_proofs(8, C.seed())
     hs = []
     for i, s in enumerate(seqs):
@@ -126,7 +132,7 @@ def run(tier):
     chk.exhaustive = exhaustive
     chk.rule = ('ordered selections of <= 4 behaviours from the 7-entry catalogue (all of length <= 2%s), each against a fresh '
                 'shipped-profile tacd, followed by a valid handshake; distinct = (history, listener) whose hostile '
-                'connections were all actually played' % (' plus all of length 3 and 4' if exhaustive else ' plus 150 random of length 3-4'))
+                'connections were all actually played; plus slow clients, abortive closes and odd server names alone and paired with every entry' % (' plus all of length 3 and 4' if exhaustive else ' plus 150 random of length 3-4'))
     chk.assumptions = ['tacd binary built with the repository release profile (panic=abort)']
     return chk.finish()
 
